@@ -59,6 +59,21 @@ Theorem C12_base_solved_differences : forall offs K terms,
 Proof. exact diff_sum_solved. Qed.
 Print Assumptions C12_base_solved_differences.
 
+(* unary minus applied DIRECTLY to a label is not forced to a number (operators.neg: awaited=False): it stays
+   symbolic with the opposite coefficient, and  -s + e  /  e + (-s)  are the constant off_e - off_s *)
+Theorem C12_neg_keeps_symbolic : forall labels a p,
+  leval labels a = Ok p -> leval labels (LNeg a) = Ok (neg p) /\ forall x, coeff x (neg p) = - coeff x p.
+Proof. exact neg_keeps_symbolic. Qed.
+Print Assumptions C12_neg_keeps_symbolic.
+
+Theorem C12_neg_label_cancels : forall offs s e, (s < length offs)%nat -> (e < length offs)%nat ->
+  exists p, leval (lab_polys offs) (LAdd (LNeg (LLabel s)) (LLabel e)) = Ok p /\ is_const p = true /\
+            const p = nth e offs 0 - nth s offs 0 /\
+  exists q, leval (lab_polys offs) (LAdd (LLabel e) (LNeg (LLabel s))) = Ok q /\ is_const q = true /\
+            const q = nth e offs 0 - nth s offs 0.
+Proof. exact neg_label_cancels. Qed.
+Print Assumptions C12_neg_label_cancels.
+
 Theorem C12_range_rule : forall v,
   (-65536 < v < 65536 -> get_as_int16 v = Ok (v mod 65536)) /\
   (v <= -65536 \/ 65536 <= v -> get_as_int16 v = Err ["value-out-of-bounds"%string]).
